@@ -336,7 +336,8 @@ class PurityAdapter(PooledAdapter):
     SELFTEST = {"quick": 6, "thorough": 16}
     required_probes = ("op_calculate", "op_shortcut", "op_newcube", "op_index", "probe_correct_call_after_interrupt",
                        "probe_several_aggregates_in_one_pass", "fault_interrupt_during_session",
-                       "probe_aggregate_reused_on_cube_with_other_row_count", "cube_ccube",
+                       "probe_aggregate_reused_on_cube_with_other_row_count",
+                       "probe_same_aggregate_object_twice_in_one_pass", "cube_ccube",
                        "cube_xcube")
     assumptions = [
         "an aggregate evaluated alone, serially, on fresh copies with a fresh object is the reference for that aggregate",
